@@ -556,6 +556,11 @@ class Tdf:
 
         comment = comment if comment is not None else old_entry.comment
 
+        # make sure the new block and its comment can be written
+        # before the old block is removed
+        newBlock._write(BytesIO())
+        BTSString.write(256, comment)
+
         self.remove_block(newBlock.type)
         self.add_block(newBlock, comment)
 
